@@ -29,7 +29,9 @@ Record htlc := mkHtlc {
   h_outbound : bool;    (* offered by this node (for a holder tx: [htlc.offered]; counterparty tx: [!htlc.offered]) *)
   h_amt : Z;            (* amount_msat / 1000 *)
   h_expiry : Z;         (* cltv_expiry *)
-  h_output : bool       (* non-dust: transaction_output_index.is_some() *)
+  h_output : bool;      (* non-dust: transaction_output_index.is_some() *)
+  h_hash : Z            (* payment hash; several HTLCs of one commitment may share it (parts of one
+                           multi-part payment over this channel, re-used hashes) *)
 }.
 
 Record closure := mkClosure {
@@ -173,6 +175,43 @@ Definition step (c : closure) (st : mstate) (o : op) : mstate :=
 
 Definition run (c : closure) (known0 : list nat) (ops : list op) : mstate :=
   fold_left (step c) ops (init c known0).
+
+(** * Claims in flight, per OUTPUT
+
+    An HTLC output is identified by its index (= its outpoint in the confirmed commitment), never by its
+    payment hash. It is spent as far as the monitor knows once an event about it was recorded. *)
+Definition about_idx (i : nat) (e : ev) : bool :=
+  match e with
+  | EvHTLCUpdate j | EvHTLCSpend j _ _ => Nat.eqb i j
+  | EvMaturing _ (Some j) _ => Nat.eqb i j
+  | _ => false
+  end.
+Definition spent_b (st : mstate) (i : nat) : bool :=
+  existsb (fun e => about_idx i (en_ev e)) (awaiting st) || existsb (Nat.eqb i) (resolved st).
+
+(** is output [i] being claimed by the node right now? *)
+Definition claiming_b (c : closure) (st : mstate) (i : nat) (h : htlc) : bool :=
+  negb (spent_b st i) &&
+  match claim_request h (knows st i) with
+  | Some k => claim_released (c_side c) k h (best st)
+  | None => false
+  end.
+
+Fixpoint claiming_from (c : closure) (st : mstate) (i : nat) (hs : list htlc) : list nat :=
+  match hs with
+  | [] => []
+  | h :: t => (if claiming_b c st i h then [i] else []) ++ claiming_from c st (S i) t
+  end.
+Definition claiming (c : closure) (st : mstate) : list nat := claiming_from c st 0 (c_htlcs c).
+
+(** learning the preimage of payment hash [H]: [provide_payment_preimage] records it for the hash, i.e.
+    for EVERY HTLC of the commitment carrying that hash *)
+Fixpoint indices_with_hash (H : Z) (i : nat) (hs : list htlc) : list nat :=
+  match hs with
+  | [] => []
+  | h :: t => (if h_hash h =? H then [i] else []) ++ indices_with_hash H (S i) t
+  end.
+Definition learn (c : closure) (H : Z) : list op := map OpPreimage (indices_with_hash H 0 (c_htlcs c)).
 
 (** * [get_claimable_balances] *)
 
